@@ -99,10 +99,12 @@ const (
 
 	// Signer configuration flags
 
-	// FlagSignerType is a flag for specifying the signer type
-	FlagSignerType = "rollkit.signer.type"
+	// FlagSignerType is a flag for specifying the signer type.
+	// After the prefix is stripped a flag name must be the key of the option it sets
+	// (signer.signer_type); under any other name the value is accepted and silently ignored.
+	FlagSignerType = "rollkit.signer.signer_type"
 	// FlagSignerPath is a flag for specifying the signer path
-	FlagSignerPath = "rollkit.signer.path"
+	FlagSignerPath = "rollkit.signer.signer_path"
 
 	// FlagSignerPassphrase is a flag for specifying the signer passphrase
 	//nolint:gosec
